@@ -44,7 +44,7 @@ ASSUMPTIONS = [
     "the gateway of parts B/C never sends; its write-spacing task is slowed down (MIN_INTER_WRITE_GAP patched) so that days of virtual time are affordable",
     "an attribute is read twice with a loop drain in between when judging 'reads as unknown' (see the recorded finding on the first read after expiry)",
 ]
-REQUIRED = {"A.messages": 300, "A.points": 3000, "A.1F09": 50, "B.packets": 500, "B.compared": 2000, "C.live_checks": 50, "C.aged_checks": 50, "D.live_checks": 300, "D.aged_checks": 30}
+REQUIRED = {"A.messages": 300, "A.points": 3000, "A.1F09": 50, "B.packets": 500, "B.compared": 2000, "C.live_checks": 50, "C.aged_checks": 50, "D.live_checks": 300, "D.aged_checks": 30, "B.restarts": 5, "B.compared_after_restart": 100}
 
 CTL, GWY_ID = "01:145038", "18:006402"
 EPS = 0.01
@@ -173,7 +173,9 @@ class World:
         """One packet: (frame, [(model key, value, lifetime, form)])."""
         r = self.rng
         kind = r.choice(("30C9a", "30C9s", "2309a", "2309s", "2349", "000Aa", "000As", "12B0", "10A0", "1F41", "2E04", "3150FC", "0008FC", "trv30C9", "trv3150", "dhw1260", "bdr3EF0", "ufc3150FC", "ufc0008FC", "ufc3150a", "fan31D9", "fan31DA"))
-        zs = sorted(r.sample(self.zones, r.randint(1, len(self.zones))))
+        # (a real controller's broadcasts name every zone; episodes with partial ones are kept for the interleaving
+        #  clauses but not for the restart clause: of two partial arrays only the later is kept by anybody)
+        zs = list(self.zones) if getattr(self, "complete_arrays", False) and len(self.zones) <= 8 else sorted(r.sample(self.zones, r.randint(1, len(self.zones))))
         z = r.choice(self.zones)
         ups: list[tuple[tuple[str, str], Any, float | None, str]] = []
         if kind in ("30C9a", "2309a"):
@@ -318,6 +320,7 @@ async def part_bc(loop: vloop.VirtualLoop, ctx, trial: int) -> None:
     rng = random.Random(f"C14/{ctx.seed}/{trial}")  # an episode is a function of (seed, trial) alone
     ep = {"seed": ctx.seed, "trial": trial}
     world = World(rng, rng.choice((1, 2, 4, 12)))  # noqa
+    world.complete_arrays = trial % 3 == 0 and len(world.zones) <= 8
     air = airmod.Air(loop)
     gwy = await harness.start_port_gateway(loop, air, GWY_ID, config={"disable_discovery": True}, **world.schema())
     port = gwy._vrf_port
@@ -356,6 +359,36 @@ async def part_bc(loop: vloop.VirtualLoop, ctx, trial: int) -> None:
                     "an attribute does not report the value of the most recently received message for it",
                     {"attr": list(key), "expected": val, "reported": got, "age_s": round(loop.time() - vt, 3), "last_packets": trail[-8:], "episode": ep},
                 )
+    # (B') the application restarts: the state is saved, a fresh gateway is started from it - every attribute whose
+    #      newest message is still live must read there as it read here (a restore replays the saved packets)
+    if world.complete_arrays:
+        try:
+            schema, pkts = gwy.get_state()
+        except Exception as err:  # noqa: BLE001  (C13's subject)
+            schema, pkts = None, None
+            ctx.info.setdefault("get_state_raised", []).append(f"{type(err).__name__}@{innermost_lib_frame(err)}")
+        if pkts:
+            air2 = airmod.Air(loop)
+            gwy2 = await harness.start_port_gateway(loop, air2, GWY_ID, config={"disable_discovery": True}, start_kwargs={"cached_packets": pkts}, **world.schema())
+            await asyncio.sleep(0.1)
+            await vloop.drain(loop, 8)
+            ctx.count("B.restarts")
+            for key, (val, vt, life, form) in world.model.items():
+                if life is not None and loop.time() - vt >= life - 1.0:
+                    continue
+                try:
+                    got = read_attr(gwy2, world, key)
+                except Exception as err:  # noqa: BLE001
+                    got = f"<raised {type(err).__name__}>"
+                ctx.count("B.compared_after_restart")
+                if got != val:
+                    ctx.violate(
+                        f"C14|restart|{key[1]}|{form}|{'unknown' if got is None else 'stale-or-wrong'}",
+                        "after a restart from the saved state an attribute no longer reports the value of the most recently received message for it",
+                        {"attr": list(key), "expected": val, "reported": got, "age_s": round(loop.time() - vt, 3), "last_packets": trail[-8:], "episode": ep},
+                    )
+            await harness.stop_gateway(gwy2)
+            air2.close()
     # (C) ageing: for a few attributes, move the clock to just before L and just after 2L+3
     keys = sorted(world.model, key=lambda k: world.model[k][1] + (world.model[k][2] or 0))
     for key in keys:
